@@ -9,7 +9,9 @@ import sys
 
 HERE = os.path.dirname(os.path.dirname(os.path.abspath(__file__)))
 # which checks are expected to see a seed (default: the seed's own property)
-EXTRA = {'C01': ['C01', 'C06'], 'C06': ['C06'], 'C02': ['C02', 'C04'], 'C03b': ['C09'], 'C02b': ['C02', 'C06'],
+ONLY = {'C01': "('N', 4), ('nondet'", 'C06': "('N', 4), ('nondet', True), ('roots', 0)",
+        'C02b': "('N', 4), ('nondet', True), ('roots', 0)"}
+EXTRA = {'C01': ['C01', 'C06'], 'C06': ['C06'], 'C02': ['C02', 'C04'], 'C03b': ['C09'], 'C02b': ['C02'],
          'C06b': ['C06', 'C07'], 'C08': ['C08']}
 
 
@@ -24,8 +26,11 @@ def main():
         checks = EXTRA.get(name, [pid])
         det = {}
         for c in checks:
-            r = subprocess.run([os.path.join(HERE, 'tools/mutate.py'), c, 'quick', '--patch',
-                                os.path.join(d, 'patch.diff')], capture_output=True, text=True)
+            cmd = [os.path.join(HERE, 'tools/mutate.py'), c, 'quick', '--patch',
+                   os.path.join(d, 'patch.diff'), '--timeout', '900']
+            if name in ONLY:
+                cmd += ['--only', ONLY[name]]
+            r = subprocess.run(cmd, capture_output=True, text=True)
             lines = r.stdout.strip().splitlines()
             code = [l for l in lines if l.startswith('EXIT')]
             viol = [l.strip() for l in lines if l.strip().startswith(c + '/')]
